@@ -131,9 +131,16 @@ def _solve_direct(i, ob, timeout_ms, use_cvc5):
     """In-process solving on the z3 objects (no SMT-LIB round trip)."""
     total = 0.0
     r, model, backend = 'unknown', None, 'z3'
-    for tactic, tmo in [(None, min(timeout_ms, 3000)), ('qfnra-nlsat', timeout_ms), (None, timeout_ms)]:
+    # nlsat either answers quickly or diverges, depending on the order in which it meets the hypotheses (observed: the same
+    # query 0.07 s / 2.7 s / > 60 s): short attempts on three orders of the SAME hypothesis set, then the full budget
+    short = min(timeout_ms, 10000)
+    hy = list(ob.hyps)
+    orders = [hy, hy[::-1], sorted(hy, key=lambda h: len(h.sexpr()) if len(hy) < 200 else 0)]
+    plan = [(None, min(timeout_ms, 3000), hy)] + [('qfnra-nlsat', short, o) for o in orders] + \
+           [(None, timeout_ms, hy), ('qfnra-nlsat', timeout_ms, hy)]
+    for tactic, tmo, hyps_ in plan:
         try:
-            r, model, dt = _check_direct(ob.hyps, ob.goal, tmo, tactic)
+            r, model, dt = _check_direct(hyps_, ob.goal, tmo, tactic)
         except z3.Z3Exception:
             r, model, dt = 'unknown', None, 0.0
         total += dt
